@@ -185,6 +185,15 @@ for _b in [16, 32, 64, 128]:
 for _m, _w in sorted(_EMW.items()):
     V("C02.V.emit." + _m, "emit", "Serializer::" + _m, {"C02": "D", "C01": "S"}, fns=[SER + _m], witness="C02.K.emit." + _w,
       note="{out==pre} " + _m + "(..) {Ok ==> out == pre ++ wire bytes}: real method, generic over ANY flavour meeting the flavour contract, every argument value (lengths / indices unbounded)")
+for _tr, _short, _fns in [("SerializeSeq", "seq", ["serialize_element"]), ("SerializeTuple", "tuple", ["serialize_element"]),
+                          ("SerializeTupleStruct", "tuple_struct", ["serialize_field"]), ("SerializeTupleVariant", "tuple_variant", ["serialize_field"]),
+                          ("SerializeMap", "map", ["serialize_key", "serialize_value"]), ("SerializeStruct", "struct", ["serialize_field"]),
+                          ("SerializeStructVariant", "struct_variant", ["serialize_field"])]:
+    for _f in _fns + ["end"]:
+        V("C02.V.emit.%s_%s" % (_short, _f), "emit", "Serializer::%s_%s" % (_short, _f), {"C02": "D", "C01": "S"},
+          fns=["postcard::ser::serializer::<impl ser::%s for &mut Serializer<F>>::%s" % (_tr, _f)],
+          witness="C02.K.emit." + ("variants2" if "variant" in _short else "compound"),
+          note=("appends exactly the element's / field's own wire form (field names never reach the output)" if _f != "end" else "appends nothing") + "; generic over the flavour contract")
 for _w in W:
     V("C02.V.emit.try_push_varint_" + _w, "emit", "Serializer::try_push_varint_" + _w, {"C02": "D", "C01": "S"},
       fns=["postcard::ser::serializer::Serializer::try_push_varint_" + _w], witness="C02.K.emit." + (_w if _w != "usize" else "compound"),
